@@ -125,6 +125,23 @@ impl ItemAttr {
 			}
 		}
 
+		// Check for duplicate traits in different `derive_where`s with the same bounds,
+		// they are only merged above if they are adjacent.
+		for (index, derive_where) in self_.derive_wheres.iter().enumerate() {
+			for other in &self_.derive_wheres[index + 1..] {
+				if derive_where.generics == other.generics {
+					if let Some((span, _)) = other
+						.spans
+						.iter()
+						.zip(&other.traits)
+						.find(|(_, trait_)| derive_where.traits.contains(trait_))
+					{
+						return Err(Error::trait_duplicate(*span));
+					}
+				}
+			}
+		}
+
 		// Delayed parsing of `skip_inner` and `incomparable` to get access to all
 		// traits to be implemented.
 		for meta in skip_inners {
